@@ -218,7 +218,12 @@ def run_case(case):
         folded_pos = [p for p in outside if s1["norm"].get(p)]
         norm_keys = folded_pos[:5] + rng.sample(sorted(s1["norm"]), min(6, len(s1["norm"])))
         norm_keys = list(dict.fromkeys(norm_keys))
-        mut_keys = [k for k in s1["muts"] if k[0] in norm_keys][:6]
+        # every variant cell that _make_coverage folds into the reference cell of a probed position must be part of the sub-state the
+        # model sees (the first version kept 6 cells only: a position outside the window with more than 6 variant cells gave the model
+        # a smaller reference cell than the implementation: false alarm of the thorough tier on NA10860 / wes)
+        rel = [k for k in s1["muts"] if k[0] in norm_keys]
+        fold = [k for k in rel if not (lo <= k[0] <= hi) and not k[1].startswith("ins")]
+        mut_keys = fold + [k for k in rel if k not in fold][:6]
         rest = [k for k in s1["muts"] if k not in mut_keys]
         mut_keys += rng.sample(rest, min(5, len(rest)))
         ph_names = list(s1["phases"])
